@@ -6,10 +6,11 @@ pub mod c01;
 pub mod c02;
 pub mod c05;
 pub mod c06;
+pub mod c10;
 
 /// run the real code for one request; None = unknown function
 pub fn run(r: &Req) -> Option<String> {
-    c01::run(r).or_else(|| c02::run(r)).or_else(|| c06::run(r))
+    c01::run(r).or_else(|| c02::run(r)).or_else(|| c06::run(r)).or_else(|| c10::run(r))
 }
 
 /// (request lines, whether the enumerated part was exhaustive over its stated bounds)
@@ -19,6 +20,7 @@ pub fn generate(prop: &str, tier: &str, rng: &mut Rng) -> (Vec<String>, bool) {
         "C02" => c02::generate(tier, rng),
         "C05" => c05::generate(tier, rng),
         "C06" => c06::generate(tier, rng),
+        "C10" => c10::generate(tier, rng),
         _ => panic!("no generator for {prop}"),
     }
 }
@@ -29,6 +31,7 @@ pub fn rule(prop: &str, tier: &str) -> String {
         "C02" => c02::rule(tier),
         "C05" => c05::rule(tier),
         "C06" => c06::rule(tier),
+        "C10" => c10::rule(tier),
         _ => String::new(),
     }
 }
@@ -38,6 +41,7 @@ pub fn compare(prop: &str, r: &Req, imp: &str, model: &str) -> Option<bool> {
     match prop {
         "C05" => Some(c05::compare(r, imp, model)),
         "C06" => c06::compare(r, imp, model),
+        "C10" => Some(c10::compare(r, imp, model)),
         _ => None,
     }
 }
@@ -65,6 +69,7 @@ pub fn valid_case(prop: &str, r: &Req) -> bool {
         "C02" => c02::valid_case(r),
         "C05" => c05::valid_case(r),
         "C06" => c06::valid_case(r),
+        "C10" => c10::valid_case(r),
         _ => true,
     }
 }
